@@ -31,6 +31,12 @@ pub fn payload(info: &Info) -> (String, String) {
     }
 }
 
+/// The test double's message inside a payload text (the runner may prefix
+/// it, e.g. "failed to initialize World: ").
+fn pmsg(text: &str) -> String {
+    text.find("P|").map_or_else(String::new, |i| text[i..].to_owned())
+}
+
 fn put_retries(m: &mut Map<String, Value>, r: Option<Retries>) {
     m.insert("retr".into(), json!(r.is_some()));
     m.insert("cur".into(), json!(r.map_or(0, |r| r.current)));
@@ -76,6 +82,7 @@ fn put_step<W>(
             StepError::Panic(info) => {
                 let (ty, text) = payload(info);
                 m.insert("pty".into(), json!(ty));
+                m.insert("pmsg".into(), json!(pmsg(&text)));
                 m.insert("ptext".into(), json!(text));
             }
             StepError::AmbiguousMatch(a) => {
@@ -127,6 +134,7 @@ fn put_scenario<W>(
             m.insert("world".into(), json!(w.is_some()));
             let (ty, text) = payload(info);
             m.insert("pty".into(), json!(ty));
+            m.insert("pmsg".into(), json!(pmsg(&text)));
             m.insert("ptext".into(), json!(text));
         }
         Scenario::Background(st, e) => put_step(m, true, st, e),
